@@ -5,58 +5,7 @@
 //@import find_prev_lb
 //@import find_next_char
 
-pub open spec fn imin(a: int, b: int) -> int { if a <= b { a } else { b } }
-
-/// indentation (in bytes) of the line that contains `p`, as get_indent_len computes it
-pub open spec fn indent_len_spec(b: Seq<u8>, p: int) -> int {
-    match prev_lb(b, p, false) {
-        Some(lf) => match char_pos(b, lf + 1) { Some(e) => e - lf - 1, None => 0 },
-        None => 0,
-    }
-}
-
-/// the blanks BlockIndentRemover deletes on the line that starts at `ls`
-pub open spec fn line_range(b: Seq<u8>, ls: int, ofs: int, len: int) -> Option<(int, int)> {
-    match char_pos(b, ls) {
-        Some(ip) => {
-            let st = imin(ls + ofs, ip);
-            let en = imin(st + len, ip);
-            if st != en { Some((st, en)) } else { None }
-        },
-        None => None,
-    }
-}
-
-/// ranges for all complete lines from `cur` that end at or before `e`
-pub open spec fn block_ranges(b: Seq<u8>, cur: int, e: int, ofs: int, len: int) -> Seq<(int, int)>
-    decreases b.len() - cur,
-{
-    if e > cur {
-        match next_lb(b, cur, false) {
-            Some(lf) => if lf + 1 > e || lf < cur { Seq::empty() } else {
-                (match line_range(b, cur, ofs, len) { Some(r) => seq![r], None => Seq::empty() })
-                    + block_ranges(b, lf + 1, e, ofs, len)
-            },
-            None => Seq::empty(),
-        }
-    } else { Seq::empty() }
-}
-
-pub open spec fn block_spec(b: Seq<u8>, s: int, e: int) -> Seq<(int, int)> {
-    let ofs = match prev_lb(b, s, true) { Some(q) => s - q - 1, None => 0 };
-    match next_lb(b, s, false) {
-        Some(lf) => {
-            let first = indent_len_spec(b, lf + 1);
-            let len = if first >= ofs { first - ofs } else { 0 };
-            block_ranges(b, lf + 1, e, ofs, len)
-        },
-        None => Seq::empty(),
-    }
-}
-
-pub open spec fn ranges_view(v: Seq<Range<usize>>) -> Seq<(int, int)> {
-    Seq::new(v.len(), |i: int| (v[i].start as int, v[i].end as int))
-}
+//@include block_vocab.vs
 
 //@fn id=trait_block_formatter file=code/formatter.rs name=format in="trait BlockFormatter" props=C01,C02,C12,C14
 //@ret r
